@@ -68,6 +68,8 @@ async fn asynchronous(worterbuch: &CloneableWbApi, config: &Config) -> Persisten
     // set of files as incomplete until all of its files have been replaced, so that files of
     // different flushes are never loaded together.
     remove_file(&grave_goods_last_will_path_checksum).await.ok();
+    #[cfg(feature = "verif")]
+    crate::verif::crash_point("flush.slot_invalidated")?;
 
     let json = json.to_string();
     write_and_check(json.as_bytes(), &store_path, &store_path_checksum).await?;
@@ -114,6 +116,8 @@ pub(crate) async fn synchronous(
     // set of files as incomplete until all of its files have been replaced, so that files of
     // different flushes are never loaded together.
     remove_file(&grave_goods_last_will_path_checksum).await.ok();
+    #[cfg(feature = "verif")]
+    crate::verif::crash_point("flush.slot_invalidated")?;
 
     debug!("Exporting database state …");
     let (data, grave_goods, last_will) = worterbuch.export();
@@ -366,9 +370,13 @@ async fn select_written_files(config: &Config) -> PersistenceResult<()> {
     let mut toggle_path = PathBuf::from(&config.data_dir);
     toggle_path.push(".toggle");
     if remove_file(&toggle_path).await.is_ok() {
+        #[cfg(feature = "verif")]
+        crate::verif::crash_point("toggle.removed")?;
         debug!("toggle file {} removed", toggle_path.to_string_lossy());
     } else {
         File::create(&toggle_path).await?;
+        #[cfg(feature = "verif")]
+        crate::verif::crash_point("toggle.created")?;
         debug!("toggle file {} created", toggle_path.to_string_lossy());
     }
     Ok(())
